@@ -285,6 +285,23 @@ def parser_valued(repo: Repo, f: Func, name: str, depth: int = 0) -> bool:
     return False
 
 
+def impl_funcs(repo: Repo, f: Func, depth: int = 1) -> List[Func]:
+    """f and the private helpers (module-level of its module, or methods of its class) it calls, `depth` levels down: "the implementation of f"."""
+    funcs = [f]
+    frontier = [f]
+    for _ in range(depth):
+        nxt = []
+        for h in frontier:
+            names = {call_name(c) for c in calls_in(h)}
+            for g in repo.funcs.values():
+                if g.mod is f.mod and g.name in names and g not in funcs and g.name.startswith('_') and not g.name.startswith('__') and \
+                        (g.cls is None or g.cls is f.cls) and g.outer is None:
+                    funcs.append(g)
+                    nxt.append(g)
+        frontier = nxt
+    return funcs
+
+
 def scope_nodes(repo: Repo, f: Func, depth: int = 1) -> List[ast.AST]:
     """The nodes of f, of the module-level / same-class private helpers it calls (one level by default) and of the module constants they read:
     where a rule asks "does the implementation of f mention X", an extracted helper or a hoisted constant is still the implementation of f."""
